@@ -40,6 +40,8 @@ def main():
     shutil.rmtree(wt, ignore_errors=True)
     rc, out = sh("git -C /repo worktree add --detach %s HEAD" % wt)
     assert rc == 0, out
+    if os.path.exists("/repo/Cargo.lock") and not os.path.exists(os.path.join(wt, "Cargo.lock")):
+        shutil.copy("/repo/Cargo.lock", os.path.join(wt, "Cargo.lock"))  # untracked in /repo
     meta = {"id": name, "source": "independent sub-agent given only the property text and a scratch worktree",
             "repo_head": sh("git -C /repo rev-parse --short HEAD")[1].strip()}
     try:
